@@ -100,10 +100,13 @@ class DtypeSystem(H.System):
     def key(self, m):
         return (m["dtype"], m["c"], m["e2"], m["missed"])
 
-    def partner(self, dtype, big=False):
+    def partner(self, dtype, big=False, frac_=False):
         c = [1, 2, 0] if self.dim == 1 else [0, 1, 2, 1]
         if big:
             c = [40000, 0, 70000] if self.dim == 1 else [40000, 0, 70000, 1]
+        if frac_:
+            # non-integral contents (float partners only): nothing may be truncated on the way
+            c = [0.5, 0, 0.25] if self.dim == 1 else [0.5, 0, 0.25, 1.5]
         return self.make(dtype, c), c
 
     def ops(self, m):
@@ -116,6 +119,9 @@ class DtypeSystem(H.System):
             ops.append(("fill_n", w))
         for t in DTYPES:
             for o in ("add", "sub", "iadd", "isub"):
+                ops.append((o, t))
+        for t in ("float16", "float32", "float64", "float128"):
+            for o in ("add_frac", "sub_frac", "iadd_frac", "isub_frac"):
                 ops.append((o, t))
         ops.append(("add_big", "int64"))
         ops.append(("iadd_big", "float64"))
@@ -142,7 +148,7 @@ class DtypeSystem(H.System):
         return snap(obj, meta=False, stats=False)
 
     def nontrivial(self, m, op, m2):
-        return op[0] == "set_dtype" or m2 is None or m2["dtype"] != m["dtype"] or op[0] in ("add", "sub", "iadd", "isub")
+        return op[0] == "set_dtype" or m2 is None or m2["dtype"] != m["dtype"] or op[0].split("_")[0] in ("add", "sub", "iadd", "isub")
 
     # -- the oracle ------------------------------------------------------------------------------
     def consistency(self, obj):
@@ -203,10 +209,11 @@ class DtypeSystem(H.System):
                 c[i] += ww
                 e2[i] += ww * ww
             expect_kind = "f" if (cur.kind == "f" or arg.startswith("float")) else "i"
-        elif name in ("add", "sub", "iadd", "isub", "add_big", "iadd_big"):
+        elif name in ("add", "sub", "iadd", "isub", "add_big", "iadd_big", "add_frac", "sub_frac", "iadd_frac", "isub_frac"):
             big = name.endswith("_big")
-            base = name.replace("_big", "")
-            p, pc = self.partner(arg, big)
+            fr = name.endswith("_frac")
+            base = name.replace("_big", "").replace("_frac", "")
+            p, pc = self.partner(arg, big, fr)
             psnap = self.snap(p)
             pcf = [Fraction(x) for x in pc]
             if base in ("add", "iadd"):
@@ -328,7 +335,7 @@ class DtypeSystem(H.System):
         if expect_raise:
             if res.ok:
                 after_dt = res.value.dtype if (not inplace and hasattr(res.value, "dtype")) else obj.dtype
-                vs.append(mk("must_raise", f"accepted|{sb}|{'negative' if name in ('sub', 'isub') else arg}|from={kind_of(cur)}", "refused", f"accepted, dtype now {after_dt}"))
+                vs.append(mk("must_raise", f"accepted|{sb}|{'negative' if name.split('_')[0] in ('sub', 'isub') else arg}|from={kind_of(cur)}", "refused", f"accepted, dtype now {after_dt}"))
                 return None, vs, False
             after = self.snap(obj)
             if after != before:
@@ -445,7 +452,7 @@ def run_unit(unit, ctx):
     if unit["kind"] == "bfs":
         sysm = DtypeSystem(unit["config"])
         seen = H.bfs(sysm, p, ctx)
-        H.dfs_validate(sysm, p, seen, 2, ctx, op_filter=lambda op: op[0] in ("fill", "iadd", "mul", "idiv", "set_dtype", "isub"))
+        H.dfs_validate(sysm, p, seen, 2, ctx, op_filter=lambda op: op[0] in ("fill", "iadd", "mul", "idiv", "set_dtype", "isub", "isub_frac"))
         for k in seen:
             p.outcome(k[0])
         p.sample({"config": unit["config"], "a_state_history": H.listify(list(seen.values())[-1][3])})
